@@ -17,11 +17,14 @@ GRID_ADDR = [None, 0, 1, 2, 4, 6, 8, 12, 16]
 GRID_SIZE = [None, 0, 1, 4, 6, 8, 12, 16, 24]
 GRID_ALIGN = [None, 1, 2, 3, 4, 8, 16]
 
-def mk(cid, ps, fields, size, align, packed, vft):
+def mk(cid, ps, fields, size, align, packed, vft, order=0):
     at = []
     if size is not None: at.append(a_int('size', size))
     if align is not None: at.append(a_int('align', align))
     if packed: at.append(a_ident('packed'))
+    # the attributes may be written in any order
+    if order % 6 in (1, 4): at.reverse()
+    elif order % 6 in (2, 5) and len(at) > 1: at = at[1:] + at[:1]
     stmts = []
     if vft: stmts.append(vftable([], []))
     for i, (t, addr) in enumerate(fields):
@@ -39,7 +42,7 @@ def grid1(ps, tag_):
                         for vft in (False, True):
                             if packed and align not in (None, 4):
                                 continue
-                            out.append(mk('%s%d-%d' % (tag_, ps, n), ps, [(t, addr)], size, align, packed, vft)); n += 1
+                            out.append(mk('%s%d-%d' % (tag_, ps, n), ps, [(t, addr)], size, align, packed, vft, order=n)); n += 1
     return out
 
 def grid2(ps, tag_):
@@ -52,7 +55,7 @@ def grid2(ps, tag_):
                 for a2 in GRID_ADDR:
                     for size in (None, 8, 12, 16, 24):
                         for align in (None, 2, 3, 4, 8):
-                            out.append(mk('%s%d-%d' % (tag_, ps, n), ps, [(t1, a1), (t2, a2)], size, align, False, False)); n += 1
+                            out.append(mk('%s%d-%d' % (tag_, ps, n), ps, [(t1, a1), (t2, a2)], size, align, False, False, order=n)); n += 1
     return out
 
 def random_case(rng, cid):
@@ -97,7 +100,7 @@ def random_case(rng, cid):
             size = max(0, size)
     if rng.random() < 0.5:
         align = eff if rng.random() < 0.8 else rng.choice([0, 1, 2, 3, 4, 6, 8, 16, 32])
-    return mk(cid, ps, fields, size, align, packed and rng.random() < 0.9, vft)
+    return mk(cid, ps, fields, size, align, packed and rng.random() < 0.9, vft, order=rng.randrange(6))
 
 def generate(rng, tier):
     out = []
